@@ -171,3 +171,9 @@ func init() {
 			return append(b, Batch{Mode: "race", Race: true, Timeout: 30 * time.Minute, Procs: 8})
 		}}
 }
+
+func init() {
+	specs["C04"] = &Spec{ID: "C04", Level: "exploration", Parallel: 8,
+		Assumptions: []string{hookAssumption, "a nil result pointer is the API's 'no card / no event / no profile': calling a value-receiver String on it is the caller's bug and is not done", "rendering caller-built enum values outside their range (TaskType, CardFormat) is not exercised: the API never returns them", "a panic in a goroutine spawned by the library ends the worker: the parent reports the crash trace"},
+		Plan: func(tier string) []Batch { return same(n(tier, 8, 16), Batch{Timeout: 30 * time.Minute}) }}
+}
